@@ -84,7 +84,16 @@ EXTRA = {
             ("SafeC.Printf.ntoaPrep_nohash", "SafeC.Proofs.PrintfFormat", "lemma", "safec_ntoa_format without '#': buffer = digits ++ precision zeros ++ width zeros ++ sign, for every flag combination, value, width and precision within the 32-byte buffer"),
             ("SafeC.Printf.outRev_eq", "SafeC.Proofs.PrintfEmit", "lemma", "safec_out_rev = one emitAll of (left padding ++ reversed buffer ++ right padding), any sink, any state"),
             ("SafeC.Printf.emitRep_eq", "SafeC.Proofs.PrintfEmit", "lemma", "the padding loops = emitAll of a replicate"),
-            ("SafeC.Printf.emitAll_idx", "SafeC.Proofs.PrintfEmit", "lemma", "a successful emitAll advances idx by the number of characters, whatever the sink")],
+            ("SafeC.Printf.emitAll_idx", "SafeC.Proofs.PrintfEmit", "lemma", "a successful emitAll advances idx by the number of characters, whatever the sink"),
+            ("SafeC.Printf.ntoaLong_renderInt_nohash", "SafeC.Proofs.PrintfRender", "lemma", "layout of ntoa_format without '#' rewritten into Spec.renderInt (digit block, sign, fill, field padding), every 64-bit value"),
+            ("SafeC.Printf.ntoaPrep_hash", "SafeC.Proofs.PrintfHash", "lemma", "safec_ntoa_format (repaired) with '#', bases 8/16: buffer = digits ++ zeros ++ prefix, the room for the prefix taken from padding zeros only"),
+            ("SafeC.Printf.ntoaLong_renderInt_hash", "SafeC.Proofs.PrintfHash", "lemma", "the '#' class = Spec.renderInt"),
+            ("SafeC.Printf.convInt_eq", "SafeC.Proofs.PrintfConv", "lemma", "convInt (flag adjustments, va_arg promotions/truncations for hh h l ll j z t, ntoa) = Spec.render for d i u o x X"),
+            ("SafeC.Printf.parseDir_stages", "SafeC.Proofs.PrintfParse", "lemma", "Spec.parseDir = width stage >>= precision stage >>= length/conversion stage"),
+            ("SafeC.Printf.parseFlags_eq", "SafeC.Proofs.PrintfParse", "lemma", "the engine's flag loop = takeWhile isFlag + setFlags (induction on the format)"),
+            ("SafeC.Printf.atoi_eq", "SafeC.Proofs.PrintfParse", "lemma", "safec_atoi = the decimal value of the numeral while it stays below 2^32"),
+            ("SafeC.Printf.directive_eq", "SafeC.Proofs.PrintfDirective", "lemma", "directive (parser + conversion) = Spec.parseDir + Spec.render for one conversion specification"),
+            ("SafeC.Printf.engLoop_eq", "SafeC.Proofs.PrintfEngine", "lemma", "the engine's main loop = one emitAll of Spec.go's text, by induction over the format, from any state")],
     "C17": [("SafeC.Norm.canonVi_ok", "SafeC.Proofs.NormTables", "table", "every value the three-level canonical lookup can return addresses an existing slot of UNWIF_canon_tbl_1..4 (kernel check over all rows, regenerated tables)"),
             ("SafeC.Norm.tbl1_stable", "SafeC.Proofs.NormTables2", "table", "every cell of UNWIF_canon_tbl_1 is a non-zero code point that is not decomposable and not a Hangul syllable"),
             ("SafeC.Norm.tbl2_stable", "SafeC.Proofs.NormTables2", "table", "the same for UNWIF_canon_tbl_2"),
